@@ -426,6 +426,9 @@ type Contract struct {
 	Ghost      []ParamDecl
 	Replay     []string
 	Lets       []*Clause
+	CallSites  map[string][]*Clause // callee name -> extra obligations at each call in this function
+	CloseOnly  []string             // type block: channel fields that are never sent on, only closed
+	LockAssume []*Clause            // assumed right after every Lock in this function (token arguments); listed as assumptions
 }
 
 type ContractFile struct {
@@ -441,7 +444,7 @@ var clauseKeywords = map[string]bool{
 	"property": true, "mode": true, "requires": true, "ensures": true, "modifies": true, "reads": true,
 	"loop": true, "assert": true, "pure": true, "inline": true, "trusted": true, "unproved": true,
 	"assume": true, "option": true, "expect": true, "def": true, "unfold": true, "macro": true, "guards": true,
-	"invariant": true, "rely": true, "ghost": true, "replay": true, "package": true, "end": true, "ghostfield": true, "let": true,
+	"invariant": true, "rely": true, "ghost": true, "replay": true, "package": true, "end": true, "ghostfield": true, "let": true, "callsite": true, "closeonly": true, "lockassume": true,
 }
 
 func firstWord(s string) (string, string) {
@@ -619,8 +622,34 @@ func ParseContractFile(path string, pkg string) (*ContractFile, error) {
 			cur.Unfold = -1
 		case "guards":
 			cur.Guards = strings.Fields(strings.ReplaceAll(rest, ",", " "))
+		case "lockassume":
+			cl, err := mkClause("lockassume", rest, l.line)
+			if err != nil {
+				return nil, err
+			}
+			cur.LockAssume = append(cur.LockAssume, cl)
+		case "closeonly":
+			cur.CloseOnly = append(cur.CloseOnly, strings.Fields(strings.ReplaceAll(rest, ",", " "))...)
 		case "replay":
 			cur.Replay = append(cur.Replay, rest)
+		case "callsite":
+			// callsite <callee> requires <expr>
+			callee, r2 := firstWord(rest)
+			if strings.HasPrefix(callee, "(") && !strings.Contains(callee, ")") {
+				// method names contain no spaces, nothing to do
+			}
+			kw, r3 := firstWord(r2)
+			if kw != "requires" {
+				return nil, fail("callsite <callee> requires <expr>")
+			}
+			cl, err := mkClause("callsite", r3, l.line)
+			if err != nil {
+				return nil, err
+			}
+			if cur.CallSites == nil {
+				cur.CallSites = map[string][]*Clause{}
+			}
+			cur.CallSites[callee] = append(cur.CallSites[callee], cl)
 		case "let":
 			// let name = expr
 			i := strings.Index(rest, "=")
